@@ -239,6 +239,8 @@ class OutputFiles:
             raise ValueError("Expected one or two paths")
         if interleaved and len(paths) != 1:
             raise ValueError("Cannot write to two files when interleaved is True")
+        if paths == (None,):
+            paths = ("-",)
         if len(paths) == 1 and paths[0] == "-" and force_fasta:
             kwargs["fileformat"] = "fasta"
         else:
@@ -247,8 +249,6 @@ class OutputFiles:
             fileformat = file_format_from_path(paths[0])
             if fileformat is not None:
                 kwargs["fileformat"] = fileformat
-        if paths == (None,):
-            paths = ("-",)
         for path in paths:
             assert path is not None
         # The same file(s) may be requested more than once, for example when
